@@ -34,6 +34,9 @@ def run(ctx):
         raise Inconclusive("NsqdMeta_backupfirst.cfg is not refuted (got %s)" % r.violated)
     # simultaneous identical pause requests (each answers only after its own write), and the data-path lock over the
     # lifetimes of several daemons (given back only once every goroutine has stopped); one refuted shortcut each
+    # (both also proved with TLAPS for ANY number of handlers / daemons and any number of steps)
+    ctx.tlaps("NsqdPauseAckProof", deps=["NsqdPauseAck"])
+    ctx.tlaps("NsqdDataLockProof", deps=["NsqdDataLock"])
     ctx.model_check("NsqdPauseAck", "NsqdPauseAck_mc.cfg", timeout=300)
     r = ctx.tlc("NsqdPauseAck", "NsqdPauseAck_skip.cfg", timeout=300, label="skip-when-same variant (expected: AckedIsOnDisk violated)")
     if r.violated != "AckedIsOnDisk":
